@@ -134,6 +134,23 @@ fn archive_op(op: &str, arg: &[u8], path: &Path) -> (String, usize, String) {
                 },
             },
         },
+        // an append through the handle first (the storage is re-mapped after a write), then the lookup on the same handle
+        "append+load_object" => match RrdpArchive::try_open(p) {
+            Err(e) => rf(e),
+            Ok(None) => ("error".into(), 0, "not found".into()),
+            Ok(Some(mut a)) => {
+                let fresh = rpki::uri::Rsync::from_slice(b"rsync://arch.verif.test/m/fresh/appended-by-the-check.roa").expect("uri");
+                let appended = a.publish_object(&fresh, &vec![b'a'; 5000]).is_ok();
+                match rpki::uri::Rsync::from_slice(arg) {
+                    Err(_) => ("ok".into(), 0, "bad uri".into()),
+                    Ok(u) => match a.load_object(&u) {
+                        Ok(Some(b)) => ("ok".into(), b.len(), format!("found (appended: {appended})")),
+                        Ok(None) => ("ok".into(), 0, format!("notfound (appended: {appended})")),
+                        Err(e) => rf(e),
+                    },
+                }
+            }
+        },
         // the generic archive, without RrdpArchive's error mapping (does not delete the file)
         "g_fetch" => match Archive::<RrdpObjectMeta>::open(path, false) {
             Err(e) => ("error".into(), 0, e.to_string()),
